@@ -210,7 +210,7 @@ def rule_select_premises(ctx, res):
 
 def rule_alloc(ctx, res):
     rx = re.compile(r'with_capacity|vec::from_elem|::reserve$|reserve_exact$|::resize$|::repeat$')
-    okp = [r'^\d+$', r'^[\w:]+::[A-Z_]+$', r'^<impl \[T\]>::len\(', r'^MulWithOverflow\(<impl \[T\]>::len\(nodes\), AddWithOverflow\(info_hash::NODE_ID_LEN, const\)\)',
+    okp = [r'^\d+$', r'^<impl \[T\]>::len\(', r'^MulWithOverflow\(<impl \[T\]>::len\(nodes\), AddWithOverflow\(info_hash::NODE_ID_LEN, const\)\)',
            r'^<T>::unwrap_or\(SeqAccess::size_hint\(seq\)\)$', r'^0$']
     n = 0
     for b in ctx.f.body_list:
@@ -227,6 +227,13 @@ def rule_alloc(ctx, res):
             args = [panics.producer(b, a) for a in t['args']]
             size = args[-1] if args else ''
             good = any(re.search(x, size) for x in okp)
+            if not good and re.match(r'^[\w:]+::[A-Z_0-9]+$', size):
+                # a named constant: its evaluated value decides (the producer prints a shortened path)
+                cands = [cp for cp in ctx.f.consts if cp == size or cp.endswith('::' + size)]
+                vals = {ctx.f.const_value(cp) for cp in cands}
+                good = len(vals) == 1 and all(isinstance(v, int) and 0 <= v <= 65536 for v in vals)
+            if re.match(r'^\d+$', size):
+                good = int(size) <= 65536
             res.check(good, 'ALLOC', b.path, 'sized allocation %s takes a constant, an existing length or the decoder size hint' % panics.short(p), site=t['sp'], detail=str(args), key='alloc:%s:%s' % (panics.short(p), size))
     res.check(n >= 6, 'ALLOC', 'crate', 'sized allocation sites found (floor 6)', detail=str(n))
     buf = [t for b in [ctx.co('socket::Socket::recv')] for i, t in b.calls() if (lib.callee_path(t) or '').endswith('vec::from_elem')]
@@ -367,7 +374,33 @@ def rule_loops_survive(ctx, res):
     c05.rule_garbage(ctx, res)
 
 
+def rule_complete_once(ctx, res):
+    """premise of the reviewed assert in RespondedInner::make_ready (`message.is_none()`): an exchange is completed at
+    most once, because the only caller takes it OUT of the pending map (remove) before completing it.  With a plain
+    lookup (get) a duplicated response would reach make_ready twice and the assert would kill the handler task."""
+    callers = [c for c in ctx.calls_matching(r'^socket::RespondedInner::make_ready$')]
+    res.sites += len(callers)
+    where = {c.body.path for c in callers}
+    res.check(len(callers) >= 1 and where <= {'socket::Socket::recv::{closure#0}'}, 'WHO', 'socket::RespondedInner::make_ready', 'make_ready is called only from the receive loop', detail=str(sorted(where)))
+    rb = ctx.co('socket::Socket::recv')
+    res.touch(rb)
+    sr = Sym(rb)
+    sr.run()
+    n = 0
+    ok = True
+    for p in sr.paths:
+        for e in p.effects:
+            if e[0] == 'call' and e[1] == 'socket::RespondedInner::make_ready':
+                n += 1
+                rm = find_calls(e[2][0], '::remove')
+                tr = [x for x in rm if lib.field_chain(strip_transparent(lib.find_calls(x[2][0], '::lock')[0][2][0]) if lib.find_calls(x[2][0], '::lock') else ('x',))[-1:] == ['transactions']]
+                if not tr:
+                    ok = False
+    res.check(ok and n >= 1, 'FLOW', rb.path, 'the exchange completed by make_ready was removed from the pending map (a duplicate response cannot complete it twice)', key='complete-once')
+
+
 def run(ctx, res):
+    rule_complete_once(ctx, res)
     rule_panics(ctx, res)
     rule_select_premises(ctx, res)
     rule_alloc(ctx, res)
